@@ -1,4 +1,4 @@
 SPECIFICATION Spec
-CONSTANT LimitProof = FALSE
+CONSTANT LimitProof = TRUE
 INVARIANTS ServeOK
 CHECK_DEADLOCK FALSE
